@@ -1,11 +1,11 @@
 (* Recorded findings of property C16 (never gate a check).
-   The witnesses for SetOptimizer duplicates and for the call-counting repeated-metric callbacks
-   (late attachment, short circuit, Below/Above first entry) were removed when /repo was repaired
-   (fix commits 988d08c, 9737159): the full-strength theorems are now in props/P_C16.v.
+   All five recorded findings are repaired in /repo (fix commits 988d08c, 9737159, 98a9d3c); the
+   full-strength theorems are in props/P_C16.v and no refutation witness remains.
 
-   Still open: the history key of a custom metric.  _RepeatedMetricChange.__init__ and
-   EveCallback.__init__ build f'{phase}_{metric}'; BaseSolver stores custom metrics under
-   f'{phase}__{name}' (double underscore) and only the loss under f'{phase}_loss'. *)
+   Kept for the record: the keys involved in the last one.  The callbacks still build
+   '<phase>_<metric>' (the public .key attribute, pinned by tests/test_callbacks.py); the solver
+   stores custom metrics under '<phase>__<name>'; since 98a9d3c the lookup _metric_history falls
+   back from the first to the second (C16_metric_custom_spec, C16_gen_metric_history). *)
 From Coq Require Import String.
 Open Scope string_scope.
 
@@ -13,9 +13,6 @@ Definition callback_key (phase metric : string) : string := phase ++ "_" ++ metr
 Definition solver_key (phase name : string) : string :=
   if string_dec name "loss" then phase ++ "_" ++ name else phase ++ "__" ++ name.
 
-Theorem metric_key_refuted :
+Theorem metric_keys_differ :
   exists name : string, name <> "loss" /\ callback_key "train" name <> solver_key "train" name.
 Proof. exists "m". split; [discriminate|]. vm_compute. discriminate. Qed.
-
-Theorem metric_key_loss_ok : forall phase, callback_key phase "loss" = solver_key phase "loss".
-Proof. intros phase. reflexivity. Qed.
